@@ -157,18 +157,21 @@ def registry_and_window(rep, rule, idx, fi, forwarded):
         rep.bad(rule, site, "registry store and add_window call", f"found {len(stores)} registry store(s) and {len(calls)} add_window call(s)")
         return
     st = stores[0].ast
-    key = ir.norm(ir.from_ast(st.targets[0].slice, {}))
-    val = ir.norm(ir.from_ast(st.value, {}))
+    from .common import get_fn
+    sym = get_fn(idx, fi)
+    aliases = {k: v for k, v in sym.t.final_env.items() if isinstance(v, tuple) and v[0] != 'localfn'}
+    key = sym.norm(ir.from_ast(st.targets[0].slice, aliases))
+    val = sym.norm(ir.from_ast(st.value, aliases))
     call = calls[0][1]
-    warg = ir.norm(ir.from_ast(call.args[0], {})) if call.args else None
-    recv = ir.norm(ir.from_ast(call.func.value, {}))
+    warg = sym.norm(ir.from_ast(call.args[0], aliases)) if call.args else None
+    recv = sym.norm(ir.from_ast(call.func.value, aliases))
     rep.check(key == ir.parse("sub_bus.memory_map") and val == ('name', 'sub_bus'), rule, site,
               "registry maps the subordinate's memory map to the subordinate bus", f"self._subs[{ir.show(key)}] = {ir.show(val)}")
     rep.check(warg == key, rule, site, "the window added is the map the registry is keyed by",
               f"add_window({ir.show(warg) if warg else None}, ...) vs registry key {ir.show(key)}")
     rep.check(recv == ir.parse("self.bus.memory_map"), rule, site, "the window goes into the map the decoder publishes",
               f"add_window is called on {ir.show(recv)}")
-    kws = {k.arg: ir.from_ast(k.value, {}) for k in call.keywords if k.arg}
+    kws = {k.arg: ir.from_ast(k.value, aliases) for k in call.keywords if k.arg}
     for f in forwarded:
         rep.check(kws.get(f) == ('name', f), rule, site, f"add() forwards `{f}` to add_window",
                   f"{f}={ir.show(kws[f]) if f in kws else 'missing'}", nontrivial=False)
